@@ -57,18 +57,13 @@ func (d *Driver) getServerCapabilities() ([]byte, error) {
 		defer close(cr)
 
 		b, err := d.Channel.ReadUntilPrompt(ctx)
-		if err != nil {
-			cr <- &result{b: b, err: err}
-		}
 
-		if ctx.Err() != nil {
-			// timer expired, we're already done, nobody will be listening for our send anyway
-			return
-		}
-
+		// the caller blocks until it gets a result (there is no timer on its side, the context
+		// bounds the read), so always send exactly one: sending none made the caller dereference
+		// the nil it got from the closed channel, sending two left this goroutine blocked forever
 		cr <- &result{
 			b:   b,
-			err: nil,
+			err: err,
 		}
 	}()
 
